@@ -376,6 +376,35 @@ type badPeer struct {
 	n   int
 }
 
+// ask: a well-formed confirmable request from the bad peer's own socket (datagram transports), answered or not within a second
+func (b *badPeer) ask() bool {
+	if b.s.transport != "udp" {
+		return true // (stream / dtls peers that sent garbage have lost their connection: nothing to ask on)
+	}
+	if b.udp == nil {
+		b.send("stall")
+	}
+	if b.udp == nil {
+		return true
+	}
+	b.n++
+	mid := int32(7000 + b.n)
+	tok := []byte{0xBA, byte(b.n)}
+	_, _ = b.udp.Write(memnet.Build(message.Confirmable, int(codes.GET), mid, tok, message.Options{{ID: message.URIPath, Value: []byte("e")}}, []byte("again")))
+	buf := make([]byte, 2048)
+	deadline := time.Now().Add(time.Second)
+	for {
+		_ = b.udp.SetReadDeadline(deadline)
+		k, err := b.udp.Read(buf)
+		if err != nil {
+			return false
+		}
+		if d, err := memnet.Parse(buf[:k]); err == nil && bytes.Equal(d.Token, tok) && d.Code != int(codes.Empty) {
+			return true
+		}
+	}
+}
+
 func (b *badPeer) send(class string) {
 	b.n++
 	datagram := b.s.transport == "udp" || b.s.transport == "dtls"
@@ -479,7 +508,12 @@ func runServer(transport string, evs []EvIn) Trace {
 				b = &badPeer{s: s}
 				bad[e.P] = b
 			}
-			b.send(e.C)
+			if e.C == "wellformed" {
+				// a peer that has misbehaved now sends a proper request from the same address: it is served like anybody's
+				o.Answered = b.ask()
+			} else {
+				b.send(e.C)
+			}
 			time.Sleep(500 * time.Microsecond) // let the server look at it
 		}
 		tr.Ev = append(tr.Ev, o)
